@@ -367,6 +367,8 @@ pub fn check(c: &Case, seams_open: bool) -> CheckResult {
     }
     // ---- (b) pixels (generic class only)
     o.class_if(model.pieces.len() > 256, "more-than-256-dashes");
+    o.class_if(c.path.ops.windows(2).any(|w| matches!(w[0], POp::Z) && matches!(w[1], POp::L(..))), "subpath-continued-after-close");
+    o.class_if(dashes.iter().any(|d| *d >= 1.0e8) && style.dash_offset.abs() >= 1.0e8, "period-and-offset-beyond-1e8");
     if !c.aligned && !model.boundary_near_vertex && model.pieces.len() <= 150 {
         let mut dt = DrawTarget::new(c.w, c.h);
         dt.set_transform(&to_transform(&c.xf));
@@ -452,7 +454,23 @@ fn dash_path_spec(ext: f32, aligned: bool) -> BoxedStrategy<PathSpec> {
             })
             .boxed()
     };
-    prop::collection::vec(sub, 1..=3).prop_map(|subs| PathSpec { ops: subs.concat(), evenodd: false }).boxed()
+    (prop::collection::vec(sub, 1..=3), prop::bool::weighted(0.33), prop::bool::weighted(0.25)).prop_map(|(subs, evenodd, cont)| {
+        let mut ops: Vec<POp> = subs.concat();
+        // one path in four: a subpath that follows a closed one continues from it without a move_to of its own
+        // (it starts at the closed subpath's starting point, and the dash pattern restarts there)
+        if cont {
+            let mut k = 1;
+            while k < ops.len() {
+                if matches!(ops[k], POp::M(..)) && matches!(ops[k - 1], POp::Z) {
+                    if let POp::M(x, y) = ops[k] {
+                        ops[k] = POp::L(x, y);
+                    }
+                }
+                k += 1;
+            }
+        }
+        PathSpec { ops, evenodd }
+    }).boxed()
 }
 
 pub fn strategy() -> BoxedStrategy<Case> {
@@ -514,6 +532,20 @@ fn long_strategy() -> BoxedStrategy<Case> {
     let pt = || (-300.0f32..340.0, -300.0f32..340.0);
     (24i32..=40, 24i32..=40, prop::collection::vec(pt(), 2..=5), any::<bool>(), prop::collection::vec(entry, 1..=6), prop_oneof![2 => Just(0.0f32), 2 => 0.0f32..20.0, 1 => -50.0f32..0.0], 1.0f32..4.0, 0u8..3, 0u8..3)
         .prop_map(|(w, h, pts, closed, dash, offset, width, cap, join)| {
+            // one case in eight: an enormous period with an offset of the same size ("entries longer than the whole
+            // path" with "offsets of any magnitude"), all values exactly representable in f32 so that the phase is
+            // well defined: [1.5 x 2^30, 128] with the offset 256 m short of the first entry, or entries near
+            // f32::MAX with the offset inside the gap
+            let sel = (width.to_bits() >> 3) % 16;
+            let (dash, offset) = match sel {
+                0 => {
+                    let big = 1610612736.0f32;
+                    let m = 1 + (width.to_bits() >> 8) % 3;
+                    (vec![big, 128.0], big - 256.0 * m as f32)
+                }
+                1 => (vec![2.0e38f32, 1.0e38], 2.5e38f32),
+                _ => (dash, offset),
+            };
             let mut ops = vec![POp::M(pts[0].0, pts[0].1)];
             let mut last = pts[0];
             for p in &pts[1..] {
@@ -554,7 +586,7 @@ pub fn property(ctx: &Ctx) -> Property {
     let seams_open = ctx.excluded(super::c04::SEAM_KEY);
     Property {
         id: "C09",
-        rule: "cases: 1-3 polyline subpaths (open/closed, 2-5 vertices, segments >= 1 px), dash arrays of 1-6 positive entries (0.5..30 plus entries longer than the whole path; odd lengths), offsets 0 / small / beyond the period / 10^3..10^4 / negative / huge (10^5..10^15, either sign), widths 1-6, all caps and joins, identity or similarity transform; a generic class (random floats) and an aligned class (integer lengths and dashes so that dash boundaries land exactly on vertices, subpath ends and the closing point); plus arrays that must disable the stroke (zero, negative or NaN total); part long: subpaths of 40..900 px (mostly off-surface) with 1-6 entries of 0.5..2.5, i.e. several hundred dashes per subpath, judged by oracle (a) only. Oracle (a), both classes, through the cfg(raqote_verif) hook on dash_path: every output vertex lies on the input path, total 'on' length equals that of an f64 arc-length dasher (pattern repeated cyclically, odd arrays doubled, offset modulo the period with mathematical sign, restarted per subpath), a closed subpath that is 'on' throughout comes out as one closed outline, and in the generic class every model piece (incl. the piece joined across the start of a closed subpath) appears with the same end points and length. Oracle (b), generic class: the model's pieces are turned into C04's stroke region and every pixel more than 0.75 px inside / outside is judged. Non-trivial: >= 2 dashes on a subpath and one of: closed subpath, dash spanning a corner, offset != 0, odd array, dash longer than the subpath, dash boundary on the closing segment; distinct by hash of the case.",
+        rule: "cases: 1-3 polyline subpaths (open/closed, 2-5 vertices, segments >= 1 px), dash arrays of 1-6 positive entries (0.5..30 plus entries longer than the whole path; odd lengths), offsets 0 / small / beyond the period / 10^3..10^4 / negative / huge (10^5..10^15, either sign), widths 1-6, all caps and joins, identity or similarity transform; a generic class (random floats) and an aligned class (integer lengths and dashes so that dash boundaries land exactly on vertices, subpath ends and the closing point); plus arrays that must disable the stroke (zero, negative or NaN total); part long: subpaths of 40..900 px (mostly off-surface) with 1-6 entries of 0.5..2.5, i.e. several hundred dashes per subpath, one case in eight with a period and an offset beyond 1e8 (exactly representable), judged by oracle (a) only. Oracle (a), both classes, through the cfg(raqote_verif) hook on dash_path: every output vertex lies on the input path, total 'on' length equals that of an f64 arc-length dasher (pattern repeated cyclically, odd arrays doubled, offset modulo the period with mathematical sign, restarted per subpath), a closed subpath that is 'on' throughout comes out as one closed outline, and in the generic class every model piece (incl. the piece joined across the start of a closed subpath) appears with the same end points and length. Oracle (b), generic class: the model's pieces are turned into C04's stroke region and every pixel more than 0.75 px inside / outside is judged. Non-trivial: >= 2 dashes on a subpath and one of: closed subpath, dash spanning a corner, offset != 0, odd array, dash longer than the subpath, dash boundary on the closing segment; distinct by hash of the case.",
         assumptions: vec![
             "pixel judgement excludes the aligned class and any case with a dash boundary within 1e-3 (+4e-7 x |offset|, the f32 phase error) of a vertex or of either end of a subpath (whether an epsilon-long piece turns a corner is decided by f32 rounding)",
             "the sub-pixel seam finding of C04 applies to dashed strokes with the same signature",
@@ -573,6 +605,7 @@ pub fn property(ctx: &Ctx) -> Property {
             ("dash", "aligned", 0.2),
             ("dash", "pixels-judged", 0.4),
             ("long", "more-than-256-dashes", 0.3),
+            ("long", "period-and-offset-beyond-1e8", 0.05),
         ],
         panic_is_violation: false,
     }
